@@ -569,8 +569,8 @@ theorem wireFormat_roundtrip (m : Message) (h : m.WF) :
     simp only [Outcome.bind]
     show ((writeQuestions b0 m.question).bind _).bind _ = _
     rw [hw1]; simp only [Outcome.bind]
-    rw [hw2]; simp only [Outcome.bind]
-    rw [hw3]; simp only [Outcome.bind]
+    rw [hw2]; simp only
+    rw [hw3]; simp only
     rw [hw4]
   · have hW1 : b4.w = b1.w ++ (e2 ++ (e3 ++ e4)) := by rw [hb4, hb3, hb2]; simp [List.append_assoc]
     have hW2 : b4.w = b2.w ++ (e3 ++ e4) := by rw [hb4, hb3]; simp [List.append_assoc]
@@ -605,16 +605,16 @@ theorem wireFormat_roundtrip (m : Message) (h : m.WF) :
     simp only [List.nil_append, List.length_nil, List.append_assoc, List.length_append, hl16] at r1 r2 r3 r4 r5 r6
     rw [← hWW] at r1 r2 r3 r4 r5 r6
     rw [r1]; simp only [Outcome.bind]
-    rw [r2]; simp only [Outcome.bind]
-    rw [r3]; simp only [Outcome.bind]
-    rw [r4]; simp only [Outcome.bind]
-    rw [r5]; simp only [Outcome.bind]
-    rw [r6]; simp only [Outcome.bind]
+    rw [r2]; simp only
+    rw [r3]; simp only
+    rw [r4]; simp only
+    rw [r5]; simp only
+    rw [r6]; simp only
     rw [u16_count h.qd_count, u16_count h.an_count, u16_count h.ns_count, u16_count h.ar_count]
-    rw [q1]; simp only [Outcome.bind]
-    rw [q2]; simp only [Outcome.bind]
-    rw [q3]; simp only [Outcome.bind]
-    rw [q4]; simp only [Outcome.bind]
+    rw [q1]; simp only
+    rw [q2]; simp only
+    rw [q3]; simp only
+    rw [q4]; simp only
     simp
 
 /-! ### chunks and the query name -/
